@@ -102,7 +102,8 @@ def dropObj (o : Nat) : M Unit := fun p =>
 def newBlock (n : Nat) : M Ptr := fun p =>
   if p.failAt = some (p.allocs + 1) then .throw .badAlloc { p with allocs := p.allocs + 1 }
   else
-    .ok (.heap p.next) { p with heap := (fun x => if x = p.next then some (List.replicate n 0xCD) else p.heap x),
+    let blk := List.replicate n 0xCD
+    .ok (.heap p.next) { p with heap := (fun x => if x = p.next then some blk else p.heap x),
                                 next := p.next + 1, allocs := p.allocs + 1 }
 
 /-- an allocation made by a temporary (`ST::char_buffer utf8 = …` inside the wide `operator<<`
@@ -143,14 +144,16 @@ def writeUnits (ptr : Ptr) (at_ : Nat) (us : List Nat) : M Unit := fun p =>
     match p.objs o with
     | some s =>
       if at_ + us.length ≤ s.stack.length then
-        .ok () { p with objs := fun x => if x = o then some { s with stack := overwrite s.stack at_ us } else p.objs x }
+        let s' : Obj := { s with stack := overwrite s.stack at_ us }
+        .ok () { p with objs := fun x => if x = o then some s' else p.objs x }
       else .fault .oob p
     | none => .fault .useAfterFree p
   | .heap k =>
     match p.heap k with
     | some blk =>
       if at_ + us.length ≤ blk.length then
-        .ok () { p with heap := fun x => if x = k then some (overwrite blk at_ us) else p.heap x }
+        let blk' := overwrite blk at_ us
+        .ok () { p with heap := fun x => if x = k then some blk' else p.heap x }
       else .fault .oob p
     | none => .fault .useAfterFree p
 
@@ -323,10 +326,15 @@ def Op.run (rev : Rev) : Op → M Unit
   | .erase o n => Stream.erase o n
   | .toString o u m => do let _ ← Stream.toString o u m; pure ()
 
-/-- a history, stopping at the first outcome that is not `ok` -/
-def runOps (rev : Rev) : List Op → M Unit
-  | [] => pure ()
-  | op :: rest => do op.run rev; runOps rev rest
+/-- a history: the caller catches exceptions (`unicode_error` from malformed wide text, `bad_alloc`
+    under a fault schedule) and carries on with the same streams; a fault ends the run -/
+def runOps (rev : Rev) : List Op → Pool → Res Unit
+  | [], p => .ok () p
+  | op :: rest, p =>
+    match op.run rev p with
+    | .ok _ p' => runOps rev rest p'
+    | .throw _ p' => runOps rev rest p'
+    | .fault f p' => .fault f p'
 
 /-- destroy every live stream among `ids` -/
 def destroyAll : List Nat → M Unit
